@@ -20,6 +20,9 @@ mod eng_watch;
 mod srctree;
 mod eng_src;
 mod eng_dir;
+mod child;
+mod eng_hrlive;
+mod eng_idle;
 
 use common::*;
 use std::{fs, io::Write, path::PathBuf};
@@ -34,11 +37,14 @@ fn engines() -> Vec<Box<dyn Engine>> {
     v.push(Box::new(eng_watch::WatchEngine::default()));
     v.push(Box::new(eng_src::SrcEngine::default()));
     v.push(Box::new(eng_dir::DirEngine::default()));
+    v.push(Box::new(eng_hrlive::HrLiveEngine::default()));
+    v.push(Box::new(eng_idle::IdleEngine::default()));
     v
 }
 
 fn main() {
     let args: Vec<String> = std::env::args().collect();
+    child::maybe_run_child(&args);   // `amh --child <engine> <op line>` (engines hrlive, idle)
     if args.len() < 2 {
         eprintln!("usage: amh <engine> --seed S --cases N --tier quick|thorough --out DIR [--replay FILE]");
         std::process::exit(2);
